@@ -316,9 +316,17 @@ def long_connection(case, ctx):
             sizes = case["sizes"]
             nbytes = sum(sizes[i % len(sizes)] for i in range(nrec))
             data = _data(nbytes, "%d/long/%s" % (case["seed"], tag))
+            d = "c2s" if who == "c" else "s2c"
+            mark = len(s.proxy.log) if _settle(s, d) else None
             eps[who].call("send_many", data, sizes)
             r2 = eps[peer].do("recv_n", nbytes, case["bufs"], timeout=120.0)
             r = eps[who].result(timeout=120.0)
+            if r[0] != "timeout" and r[1] == 1 and r[2] == nbytes:
+                # every write returned: what the writer was told it sent must be in the records that left it (no clock involved)
+                cap = _wire_capacity(s, proto, d, mark)
+                if cap is not None:
+                    ctx.check(cap >= nbytes, "%s: %d small writes were accepted (%d bytes), but the application records on the wire can carry at most %d bytes" %
+                              (proto, nrec, nbytes, cap), "long/%s/wire" % proto)
             if r[0] == "timeout" or r2[0] == "timeout":
                 ctx.note("inconclusive-timeout"); return
             ctx.check(r[1] == 1 and r[2] == nbytes, "%s: write #%d of %d small writes failed: ret=%s after %d bytes" % (proto, r[3], nrec, r[1], r[2]), "long/%s/write" % proto)
